@@ -231,3 +231,50 @@ def project_adapt(sc, run):
                          "hasInitial": a["has_initial"]})
         lines.append(line)
     return lines, []
+
+
+def is_prefix(a, b):
+    return len(a) <= len(b) and list(b[:len(a)]) == list(a)
+
+
+def project_sampler(sc, run):
+    """SamplerTrace vocabulary for one sampler run."""
+    ref = next(e for e in run if e["ev"] == "reference")
+    new = next((e for e in run if e["ev"] == "u_new"), None)
+    if new is None:
+        return []
+    full_rec = ref["full_rec"]
+    fp = ref["full_pos"]
+    distinct = all(fp[i] != fp[j] or not fp[i] for i in range(len(fp)) for j in range(i + 1, len(fp)))
+    out = [{"ev": "reset", "chains": new["chains"], "cores": new["cores"], "draws": new["draws"],
+            "fullpos": fp, "distinct": distinct}]
+    for e in run:
+        k = e["ev"]
+        if k in ("reference", "u_new"):
+            continue
+        e = {a: b for a, b in e.items() if a not in ("cat", "seq")}
+        if k == "u_ret" and e.get("cmd") == "inspect" and e.get("ok"):
+            tr = e.pop("trace")
+            lens = [len(t) if t is not None else 0 for t in tr]
+            while len(lens) < new["chains"]:
+                lens.append(0)
+            e["lens"] = lens
+            e["prefixok"] = all(is_prefix(t or [], full_rec[i]) for i, t in enumerate(tr))
+        if k == "ch_result":
+            e.pop("msg", None)
+        if k == "u_ret":
+            e.pop("msg", None)
+        if k == "final":
+            res = e["result"]
+            tr = res.get("trace")
+            oc = res["outcome"]["res"]
+            lens = [0] * new["chains"]
+            ok = True
+            if tr is not None:
+                for i, t in enumerate(tr):
+                    if t is not None:
+                        lens[i] = len(t)
+                        ok = ok and is_prefix(t, full_rec[i])
+            e = {"ev": "final", "outcome": oc, "prefixok": ok, "lens": lens, "hastrace": tr is not None}
+        out.append(e)
+    return out
